@@ -540,7 +540,8 @@ pub fn capsweep_seeds(out: &mut Vec<Seed>) {
             }
         }
     }
-    // avar 2 coordinate buffer: 64 axes
+    // avar 2 coordinate buffer (64 entries): fvar and avar carry the axis count independently, so the two counts
+    // are crossed (all pairs), not kept equal
     let fvar_ty = crate::registry::find("fvar::Fvar");
     for n in [1u16, 63, 64, 65, 100] {
         let mut fvar = vec![];
@@ -560,17 +561,40 @@ pub fn capsweep_seeds(out: &mut Vec<Seed>) {
             be16(&mut fvar, 0);
             be16(&mut fvar, 256);
         }
-        let mut avar = vec![];
-        be16(&mut avar, 2);
-        be16(&mut avar, 0);
-        be16(&mut avar, 0);
-        be16(&mut avar, n);
-        for _ in 0..n {
-            be16(&mut avar, 0); // positionMapCount
+        for a in [0u16, 1, 63, 64, 65, 100] {
+            let mut avar = vec![];
+            be16(&mut avar, 2);
+            be16(&mut avar, 0);
+            be16(&mut avar, 0);
+            be16(&mut avar, a);
+            for _ in 0..a {
+                be16(&mut avar, 0); // positionMapCount
+            }
+            be32(&mut avar, 0); // axisIndexMapOffset: null (identity mapping)
+            be32(&mut avar, 8 + 2 * a as u32 + 8); // varStoreOffset
+            avar.extend(ivs(a.max(1), 2));
+            out.push(seed(format!("synth:cap/avar2-fvar-axes={n},avar-axes={a}"), fvar_ty, "fvar", [0; 3], fvar.clone(), vec![avar]));
         }
-        be32(&mut avar, 0); // axisIndexMapOffset: null (identity mapping)
-        be32(&mut avar, 8 + 2 * n as u32 + 8); // varStoreOffset
-        avar.extend(ivs(n, 2));
-        out.push(seed(format!("synth:cap/avar2-axes={n}"), fvar_ty, "fvar", [0; 3], fvar, vec![avar]));
+    }
+    // gvar glyphCount disagreeing with the glyf/loca glyph count (3 glyphs: simple, simple, composite -> 1)
+    {
+        let glyphs = [crate::synth::simple_glyph(), crate::synth::simple_glyph(), crate::synth::composite_glyph(&[(1, true)])];
+        let (glyf, loca, _) = crate::synth::glyf_loca_gvar(&glyphs);
+        for g in [0u16, 1, 2, 3, 4, 100] {
+            let mut gvar = vec![];
+            be16(&mut gvar, 1);
+            be16(&mut gvar, 0);
+            be16(&mut gvar, 1);
+            be16(&mut gvar, 0);
+            let data_off = 20 + 2 * (g as u32 + 1);
+            be32(&mut gvar, data_off);
+            be16(&mut gvar, g);
+            be16(&mut gvar, 0);
+            be32(&mut gvar, data_off);
+            for _ in 0..=g {
+                be16(&mut gvar, 0);
+            }
+            out.push(seed(format!("synth:cap/gvar-glyphs={g},glyf-glyphs=3"), None, "gvar2", [1, 3, 0], gvar, vec![glyf.clone(), loca.clone()]));
+        }
     }
 }
